@@ -27,6 +27,8 @@ WORKER_ASSUME = COMMON_ASSUME + [
     "async_priority_channel delivers each queued message once (highest priority first, FIFO within a priority); tokio::time::timeout returns Err only after the duration passed",
     "the filterer is arbitrary user code: its verdict per call is recorded, nothing else is assumed about it",
     "a message popped by recv is dropped when the channel is found closed right after (return Ok(None)): the statement's 'until a quit is requested'",
+    "event producers (unit sources): the notify back end calls the watcher callback once per OS event; tokio signal streams and stdin deliver what the OS reports; real filesystem operations under native/poll watchers are not decided",
+    "the worker loop around throttle_collect (Handler::new, action handler call, job bookkeeping) is not under contract yet: 'the handler is invoked exactly once per returned batch' rests on reading worker()",
 ]
 PROPS = {
     "C04": dict(claim='Inductive invariant (live children == the child owned by the state) proved by Verus over the real job-task loop and both handlers, for every control, child behaviour and fault; unbounded', trusted="environment stand-ins in prelude/task_env.rs (process-wrap child, tokio select/mpsc, user callbacks, clock), flag_env.rs; rewrite rules of the extractor; listed per run in evidence coverage.trusted_base and assumptions",
@@ -64,13 +66,13 @@ PROPS = {
                 claim="Tag<->SerdeTag conversions proved by Kani for every non-fs tag kind over full value ranges; an arbitrary tag object (all optional fields symbolic) never panics and yields its own kind or the explicit Unknown tag",
                 trusted="CBMC's bit-precise model of the compiled MIR (real code incl. the unsafe new_unchecked calls, no stubs)",
                 technique="Kani loop-free proof harnesses over full-domain symbolic inputs on the real conversion functions (plain harnesses: contract instrumentation is 20x slower on these heap-carrying types)"),
-    "C01": dict(units=["worker"], level="proof", assumptions=WORKER_ASSUME,
+    "C01": dict(units=["worker", "sources"], level="proof", assumptions=WORKER_ASSUME,
                 claim="throttle_collect proved by Verus: the returned batch is exactly the accepted sub-sequence (urgent, empty or filter-accepted) of the messages it received, never empty; loop invariant over all event streams, verdict sequences and timings",
                 trusted="stand-ins in prelude/worker_env.rs (async_priority_channel receiver, tokio timeout, Changeable throttle, arbitrary filterer, error channel); frame lemmas applied in verified wrappers (units/worker/spec.rs)"),
     "C02": dict(units=["worker"], level="proof", assumptions=WORKER_ASSUME + ["wall-clock accuracy of tokio timers is not decided; 'arrive within the window' = received by the worker before the return"],
                 claim="throttle_collect proved by Verus: a non-urgent batch is not returned before first-event time + throttle, an urgent event is the last one received and is never filtered, the recv timeout never exceeds the rest of the window",
                 trusted="stand-ins in prelude/worker_env.rs (virtual clock: only blocking calls let time pass)"),
-    "C15": dict(units=["worker", "errhook"], level="proof", assumptions=WORKER_ASSUME,
+    "C15": dict(units=["worker", "errhook", "sources"], level="proof", assumptions=WORKER_ASSUME,
                 claim="throttle_collect proved by Verus: every filter error is sent to the error channel exactly once, in order, the event is not batched and collection continues; only a closed error channel is critical. error_hook / ErrorHook::{handle_crit,critical,elevate} proved: each received error handled exactly once, a raised critical is never ignored",
                 trusted="stand-ins in prelude/worker_env.rs, prelude/errhook_env.rs (error channel, OnceLock/Arc cell with ghost owner count, arbitrary error handler); Arc drops are not modelled (owner count at the time of handle_crit)"),
 }
